@@ -16,6 +16,7 @@ EXPLANATION = (
     "constructed or fed on the chain.  Parser side: an action is never marked complete without its end "
     "message and all children (C09 rules), incomplete tasks are still yielded.  What the OS does with "
     "flushed data on SIGKILL, and error-freedom of the parser on every truncated real output, are NOT decided."
+    "  The text/binary probe of FileDestination (C10.mode) is included: a file handed the wrong kind of data rejects every write while the calls still return."
 )
 RULE = ("obligation = one link of the acknowledgement chain or one parser completeness rule; non-trivial = "
         "CFG paths examined")
@@ -68,7 +69,9 @@ def run(chk):
     rule_ack(chk)
     c08.rule_fanout(chk)
     c10.rule_line(chk, prefix="C11")
+    c10.rule_mode(chk)          # a file given the wrong kind of data rejects every write: the calls return and nothing is on disk
     c09.rule_never_early(chk, prefix="C11")
     c09.rule_tail(chk, prefix="C11")
+    c09.rule_orderings(chk, prefix="C11")  # an ordering that raises on a truncated log loses the unfinished actions
     c09.rule_upward(chk)        # every started action appears with the messages logged so far: ancestors are refreshed on every insertion
     c09.rule_add_dispatch(chk)  # an unfinished action must be recognised as a started action, whatever its type
